@@ -9,6 +9,7 @@ length, value, register position, width and build profile — nothing is bounded
 import CamVerif.Proofs.C20Raw
 import CamVerif.Proofs.C20Typed
 import CamVerif.Proofs.C20BitField
+import CamVerif.Proofs.C20GenTie
 namespace CamVerif.C20
 open CamVerif CamVerif.Memory CamVerif.Memory.AccessRight CamVerif.Memory.MemoryProtection
 
@@ -519,5 +520,10 @@ example : specRight [⟨0, 4, .RW, none⟩, ⟨2, 2, .RO, none⟩, ⟨8, 0, .WO,
 example : ∃ m, Mem.new [⟨0, 4, [⟨0, 2, .RO, some ((scalarReg .LE 2 0 2 .RO).write 321#16)⟩, ⟨2, 2, .RW, none⟩]⟩] = .ok m ∧
     m.read (scalarReg .LE 2 0 2 .RO) = .ok 321#16 ∧ m.protection.cell 1 = .RO ∧ m.protection.cell 2 = .RW :=
   ⟨_, rfl, by decide, by decide, by decide⟩
+
+/-- **gen_fn_tie** (tie by regeneration, function bodies): the Lean functions that `rs2lean`
+re-translates from the CURRENT Rust source on every run (FnAccessRight) are equal, for every input and both
+build profiles, to the hand-written model functions the theorems above are about. -/
+theorem gen_fn_tie : CamVerif.Proofs.C20GenTie.GenTie := CamVerif.Proofs.C20GenTie.gen_tie
 
 end CamVerif.C20
